@@ -96,7 +96,7 @@ func rangeVocab(overlap bool) []rangeQ {
 
 func draw(rt *rapid.T) Scenario {
 	var sc Scenario
-	sc.Sched = detsim.DrawSched(rt, detsim.Scale(500, 1500))
+	sc.Sched = detsim.DrawSchedPauses(rt, detsim.Scale(500, 1500))
 	if rapid.IntRange(0, 9).Draw(rt, "family") < 7 {
 		sc.Family = "burst"
 	} else {
@@ -393,6 +393,9 @@ func run(t *testing.T, sc Scenario, record bool) *detsim.Outcome {
 		nw.Close()
 	})
 	out.Sched = stats
+	if stats.Pauses > 0 {
+		out.Probes["scheduler_pauses"] += stats.Pauses
+	}
 	if !live {
 		setViol("liveness", fmt.Sprintf("callers did not finish within the simulated budget (leak: %s)", leak))
 	} else if leak != "" {
